@@ -265,6 +265,10 @@ class NoProfileReturned(Exception):
     pass
 
 
+class ArgumentModified(Exception):
+    pass
+
+
 def _score_bag(profile, inv):
     d = {}
     for b in profile.ballots:
@@ -316,6 +320,11 @@ def call_work(inp):
                                                   for b in blocs},
                           bloc_voter_prop={b: float(F(*inp["props"][b])) for b in blocs},
                           cohesion_parameters={b: {s: float(F(*inp["coh"][b][s])) for s in blocs} for b in blocs})
+                def snap():
+                    return json.dumps({"s2c": kw["slate_to_candidates"], "prop": kw["bloc_voter_prop"], "coh": kw["cohesion_parameters"],
+                                       "iv": {b: {s: [sorted(iv.interval.items()), sorted(iv.zero_cands), sorted(iv.non_zero_cands)]
+                                                  for s, iv in row.items()} for b, row in kw["pref_intervals_by_bloc"].items()}}, sort_keys=True, default=str)
+                before = snap()
                 cls = {"PL": bg.name_PlackettLuce, "shortPL": bg.short_name_PlackettLuce, "BT": bg.name_BradleyTerry,
                        "BT_MCMC": bg.name_BradleyTerry, "Cumulative": bg.name_Cumulative, "sPL": bg.slate_PlackettLuce,
                        "sBT": bg.slate_BradleyTerry, "sBT_MCMC": bg.slate_BradleyTerry, "AC": bg.AlternatingCrossover,
@@ -342,6 +351,8 @@ def call_work(inp):
                 else:
                     out = g.generate_profile(N, by_bloc=inp["byb"])
                 byb, pp = out if inp["byb"] else ({}, out)
+                if inp.get("via") != "from_params" and snap() != before:
+                    raise ArgumentModified("a parameter dictionary or PreferenceInterval passed to the generator was modified")
             else:
                 cl = [nm[c] for c in cands]
                 uni = {"low": 0.0, "high": 1.0, "size": 2}
